@@ -351,21 +351,21 @@ headers, kinds of statements and the names they bind) they had when the model wa
 loop, early exit or rebinding has been added that the model does not describe -/
 theorem modelled_functions_have_the_transcribed_shape :
     MlVerif.Gen.C07.shapeConstraintKmeans =
-      "assert;if(strategy == 'weights'){return}else{if(isinstance(X, DataFrame)){X=};x_squared_norms=;counters=;limit=;leftover=;leftclose=;n_clusters=;distances_close=;best_inertia=;best_iter=;all_centers=;call _constraint_association;if(sample_weight is None){sw=}else{sw=};if(scipy.sparse.issparse(X)){_centers_fct=}else{_centers_fct=};while(iter < max_iter){centers=;if(history){call append};call _constraint_association;(_,inertia)=;iterAdd=;if(verbose){call print};if(best_inertia is None or inertia < best_inertia){best_inertia=;best_centers=;best_labels=;best_iter=};if(best_inertia is not None and inertia >= best_inertia and (iter > best_iter + 5)){break}};return}" ∧
+      "sig(X, labels, sample_weight, centers, inertia, iter, max_iter, strategy='gain', verbose=0, state=None, learning_rate=1.0, history=False)|assert;if(strategy == 'weights'){return}else{if(isinstance(X, DataFrame)){X=};x_squared_norms=;counters=;limit=;leftover=;leftclose=;n_clusters=;distances_close=;best_inertia=;best_iter=;all_centers=;call _constraint_association;if(sample_weight is None){sw=}else{sw=};if(scipy.sparse.issparse(X)){_centers_fct=}else{_centers_fct=};while(iter < max_iter){centers=;if(history){call append};call _constraint_association;(_,inertia)=;iterAdd=;if(verbose){call print};if(best_inertia is None or inertia < best_inertia){best_inertia=;best_centers=;best_labels=;best_iter=};if(best_inertia is not None and inertia >= best_inertia and (iter > best_iter + 5)){break}};return}" ∧
     MlVerif.Gen.C07.shapeAssociation =
-      "if(strategy in ('distance', 'distance_p')){return};if(strategy in ('gain', 'gain_p')){return};raise" ∧
+      "sig(leftover, counters, labels, leftclose, distances_close, centers, X, x_squared_norms, limit, strategy, state=None)|if(strategy in ('distance', 'distance_p')){return};if(strategy in ('gain', 'gain_p')){return};raise" ∧
     MlVerif.Gen.C07.shapeAssociationDistance =
-      "counters[]=;leftclose[]=;labels[]=;distances=;distances=;distances0=;maxi=;centers_index=;while(labels.min() == -1){mini=;sorted_index=;call _randomize_index;nover=;for(ind in sorted_index){if(labels[ind] >= 0){continue};for(c in centers_index[ind, :]){if(counters[c] < limit){counters[]Add=;labels[]=;distances[]=;break};if(nover > 0 and leftclose[c] == -1){counters[]Add=;labels[]=;noverSub=;leftclose[]=;distances[]=;break}}}};call _switch_clusters;distances_close[]=;return" ∧
+      "sig(leftover, counters, labels, leftclose, distances_close, centers, X, x_squared_norms, limit, strategy, state=None)|counters[]=;leftclose[]=;labels[]=;distances=;distances=;distances0=;maxi=;centers_index=;while(labels.min() == -1){mini=;sorted_index=;call _randomize_index;nover=;for(ind in sorted_index){if(labels[ind] >= 0){continue};for(c in centers_index[ind, :]){if(counters[c] < limit){counters[]Add=;labels[]=;distances[]=;break};if(nover > 0 and leftclose[c] == -1){counters[]Add=;labels[]=;noverSub=;leftclose[]=;distances[]=;break}}}};call _switch_clusters;distances_close[]=;return" ∧
     MlVerif.Gen.C07.shapeAssociationGain =
-      "distances=;distances=;if(strategy == 'gain_p'){labels[]=}else{pass};strategy_coef=;distance_linear=;sorted_distances=;distances_close[]=;ave=;counters[]=;for(i in labels){counters[]Add=};leftclose[]=;leftclose[]=;leftclose[]=;nover=;sumi=;if(sumi != 0){if(state is None){state=};def loopf{if(sumi < 0 and leftclose[h] > 0){sumiAdd=;leftclose[]=}else{if(sumi > 0 and leftclose[h] == 0){leftclose[]=;sumiSub=}};return};it=;while(sumi != 0){h=;sumi=;itAdd=;if(it > counters.shape[0] * 2){break}};for(h in range(counters.shape[0])){if(sumi == 0){break};sumi=}};transfer=;for(i in range(0, sorted_distances.shape[0])){gain=;ind=;dest=;cur=;if(distances_close[ind]){continue};if(cur == dest){continue};if(counters[dest] < ave + leftclose[dest] and counters[cur] > ave + leftclose[cur]){labels[]=;counters[]Sub=;counters[]Add=;distances_close[]=}else{cp=;while(len(cp) > 0){(g,destind)=;if(distances_close[destind]){del cp[]}else{break}};if(cp){(g,destind)=;if(g + gain < 0){del cp[];labels[]=;labels[]=;add=;distances_close[]=;distances_close[]=}else{add=}}else{add=};if(add){if((cur, dest) not in transfer){transfer[]=};gain=;call insort}}};for(i in range(0, sorted_distances.shape[0])){ind=;dest=;cur=;if(cur == dest){continue};if(counters[dest] < ave + leftclose[dest] and counters[cur] > ave + leftclose[cur]){labels[]=;counters[]Sub=;counters[]Add=}};neg=;assert;call _switch_clusters;distances_close[]=;return" ∧
+      "sig(leftover, counters, labels, leftclose, distances_close, centers, X, x_squared_norms, limit, strategy, state=None)|distances=;distances=;if(strategy == 'gain_p'){labels[]=}else{pass};strategy_coef=;distance_linear=;sorted_distances=;distances_close[]=;ave=;counters[]=;for(i in labels){counters[]Add=};leftclose[]=;leftclose[]=;leftclose[]=;nover=;sumi=;if(sumi != 0){if(state is None){state=};def loopf{if(sumi < 0 and leftclose[h] > 0){sumiAdd=;leftclose[]=}else{if(sumi > 0 and leftclose[h] == 0){leftclose[]=;sumiSub=}};return};it=;while(sumi != 0){h=;sumi=;itAdd=;if(it > counters.shape[0] * 2){break}};for(h in range(counters.shape[0])){if(sumi == 0){break};sumi=}};transfer=;for(i in range(0, sorted_distances.shape[0])){gain=;ind=;dest=;cur=;if(distances_close[ind]){continue};if(cur == dest){continue};if(counters[dest] < ave + leftclose[dest] and counters[cur] > ave + leftclose[cur]){labels[]=;counters[]Sub=;counters[]Add=;distances_close[]=}else{cp=;while(len(cp) > 0){(g,destind)=;if(distances_close[destind]){del cp[]}else{break}};if(cp){(g,destind)=;if(g + gain < 0){del cp[];labels[]=;labels[]=;add=;distances_close[]=;distances_close[]=}else{add=}}else{add=};if(add){if((cur, dest) not in transfer){transfer[]=};gain=;call insort}}};for(i in range(0, sorted_distances.shape[0])){ind=;dest=;cur=;if(cur == dest){continue};if(counters[dest] < ave + leftclose[dest] and counters[cur] > ave + leftclose[cur]){labels[]=;counters[]Sub=;counters[]Add=}};neg=;assert;call _switch_clusters;distances_close[]=;return" ∧
     MlVerif.Gen.C07.shapeSwitchClusters =
-      "perm=;niter=;modif=;while(modif > 0 and niter < 10){modif=;niterAdd=;for(i_ in range(labels.shape[0])){for(j_ in range(i_ + 1, labels.shape[0])){i=;j=;c1=;c2=;if(c1 == c2){continue};d11=;d12=;d21=;d22=;if(d11 ** 2 + d22 ** 2 > d21 ** 2 + d12 ** 2){(labels[],labels[])=;modifAdd=}}}}" ∧
+      "sig(labels, distances)|perm=;niter=;modif=;while(modif > 0 and niter < 10){modif=;niterAdd=;for(i_ in range(labels.shape[0])){for(j_ in range(i_ + 1, labels.shape[0])){i=;j=;c1=;c2=;if(c1 == c2){continue};d11=;d12=;d21=;d22=;if(d11 ** 2 + d22 ** 2 > d21 ** 2 + d12 ** 2){(labels[],labels[])=;modifAdd=}}}}" ∧
     MlVerif.Gen.C07.shapeRandomizeIndex =
-      "maxi=;mini=;diff=;rand=;for(i in range(1, index.shape[0])){ind1=;ind2=;w1=;w2=;ratio=;if(rand[i] >= ratio + 0.5){(index[],index[])=;(weights[],weights[])=}}" ∧
+      "sig(index, weights)|maxi=;mini=;diff=;rand=;for(i in range(1, index.shape[0])){ind1=;ind2=;w1=;w2=;ratio=;if(rand[i] >= ratio + 0.5){(index[],index[])=;(weights[],weights[])=}}" ∧
     MlVerif.Gen.C07.shapeEstimatorFit =
-      "max_iter=;self.max_iterFloorDiv=;try{if(self.kmeans0){call fit;state=}else{state=;labels=;centers=;choice=;for((i,c) in enumerate(choice)){centers[]=};self.labels_=;self.cluster_centers_=;self.inertia_=;self.n_iter_=;self.n_features_in_=}}finally{self.max_iter=};return" ∧
+      "sig(self, X, y=None, sample_weight=None)|max_iter=;self.max_iterFloorDiv=;try{if(self.kmeans0){call fit;state=}else{state=;labels=;centers=;choice=;for((i,c) in enumerate(choice)){centers[]=};self.labels_=;self.cluster_centers_=;self.inertia_=;self.n_iter_=;self.n_features_in_=}}finally{self.max_iter=};return" ∧
     MlVerif.Gen.C07.shapeEstimatorPredict =
-      "if(self.weights_ is None){if(self.balanced_predictions){(labels,_,__)=;return};return}else{assert;return}" :=
+      "sig(self, X)|if(self.weights_ is None){if(self.balanced_predictions){(labels,_,__)=;return};return}else{assert;return}" :=
   ⟨rfl, rfl, rfl, rfl, rfl, rfl, rfl, rfl⟩
 
 /-! ### non-vacuity: concrete instances meeting the hypotheses -/
